@@ -359,6 +359,8 @@ def check_case(case):
 
         from vk import cli
 
+        cli.use_case(case)
+
         d = tempfile.mkdtemp(prefix="vk16.")
         try:
             sa = segarr if case["use_segments"] else None
